@@ -73,6 +73,12 @@ def spec_src(sp):
         return "cycle(%s)" % render(sp["xs"])
     if t == "iterate":
         return "(%s iterate %s)" % (render_int(sp["a"]), FUNCS[sp["f"]][0])
+    if t == "iterate_brk":
+        # the step function ends the stream with `break` once the element exceeds the limit (that element is still yielded)
+        return "iterate(%s, \\t -> if (t > %d) break else %s(t))" % (render_int(sp["a"]), sp["limit"], FUNCS[sp["f"]][0])
+    if t == "iterate_err":
+        # the step function is partial: it raises on the last defined element
+        return "iterate(0, \\t -> %s[t])" % render(list(range(1, sp["m"] + 1)))
     raise ValueError(t)
 
 
@@ -128,6 +134,50 @@ def spec_gen(sp):
     raise ValueError(t)
 
 
+def partial_elems(sp):
+    if sp["t"] == "iterate_brk":
+        f = FUNCS[sp["f"]][1]
+        out, x = [], sp["a"]
+        while True:
+            out.append(x)
+            if x > sp["limit"]:
+                return out
+            x = f(x)
+    return list(range(sp["m"] + 1))
+
+
+def partial_obs(sp, p):
+    """a stream built by `iterate` whose step function stops (break) or fails on the last defined element: every prefix,
+    index and slice up to and including that element is defined; `len` is not asserted (iterate reports infinity)"""
+    L = partial_elems(sp)[p:]
+    n = len(L)
+    brk = sp["t"] == "iterate_brk"
+    obs = []
+    for i in range(n):
+        obs.append(("index", "s[%d]" % i, mcanon(L[i])))
+    obs.append(("index_past", "s[%d]" % n, E))
+    for a, b in ((0, n), (1, n), (0, max(n - 1, 0)), (n - 1, n), (2, 3)):
+        if brk or (0 <= a <= n and b <= n):     # past the failing element a slice raises like the element itself
+            obs.append(("slice", "ls(s[%d:%d])" % (max(a, 0), b), mcanon(L[max(a, 0):b])))
+    for k in (0, 1, n - 1, n):
+        if k >= 0:
+            obs.append(("take", "ls(s take %d)" % k, mcanon(L[:k])))
+    obs.append(("take_past", "ls(s take %d)" % (n + 1), mcanon(L) if brk else E))
+    if n:
+        obs.append(("drop_first", "first(s drop %d)" % (n - 1), mcanon(L[-1])))
+        obs.append(("first", "first(s)", mcanon(L[0])))
+        obs.append(("for_break", "for (x <- s) (if (x == %s) break 77)" % render(L[-1]), mcanon(77)))
+    if brk:
+        obs.append(("list", "list(s)", mcanon(L)))
+        obs.append(("for", "for (x <- s) yield x", mcanon(L)))
+        obs.append(("reverse", "ls(reverse(s))", mcanon(L[::-1])))
+        obs.append(("last", "last(s)", mcanon(L[-1]) if n else E))
+        if n:
+            obs.append(("in", "%s in s" % render(L[-1]), mcanon(1)))
+    obs.append(("index_again", "s[0]", mcanon(L[0]) if n else E))
+    return obs
+
+
 def is_infinite(sp):
     t = sp["t"]
     if t in ("iota", "repeat", "cycle", "iterate"):
@@ -175,6 +225,14 @@ def finite_obs(L, ints):
     if n:
         obs.append(("in", "%s in s" % render(L[n // 2]), mcanon(1)))
     obs.append(("in", "(0-999) in s", mcanon(0)))
+    if ints and n:
+        # membership is by value: a float / rational / complex equal to an element is in the stream, a near miss is not
+        x = L[(2 * n) // 3]
+        if abs(x) < 2 ** 50:
+            obs.append(("in_float", "float(%s) in s" % render_int(x), mcanon(1)))
+            obs.append(("in_rational", "((2 * %s) / 2) in s" % render_int(x), mcanon(1)))
+            obs.append(("in_complex", "(%s + 0i) in s" % render_int(x), mcanon(1)))
+            obs.append(("in_near", "(%s + 0.5) in s" % render_int(x), mcanon(0)))
     obs.append(("unpack_splat", "(\\t -> (a, ...b := t; [a, b]))(s)", mcanon([L[0], L[1:]]) if n else E))
     obs.append(("unpack_exact2", "(\\t -> (a, b := t; [a, b]))(s)", mcanon(L) if n == 2 else E))
     obs.append(("for", "for (x <- s) yield x", mcanon(L)))
@@ -234,7 +292,12 @@ def check_case(nl, case, ctx=None):
     try:
         src = spec_src(sp)
         inf = is_infinite(sp)
-        if inf:
+        if sp["t"] in ("iterate_brk", "iterate_err"):
+            inf = False
+            p = min(p, len(partial_elems(sp)) - 1)    # dropping past the failing element is itself the failure
+            L = partial_elems(sp)[p:]
+            obs = partial_obs(sp, p)
+        elif inf:
             def gf():
                 return itertools.islice(spec_gen(sp), p, None)
             obs = infinite_obs(gf, sp["t"] in ("iota", "repeat", "cycle", "iterate"))
@@ -320,7 +383,9 @@ def s_spec():
     filt = st.builds(lambda s, p: {"t": "filter", "s": s, "p": p}, s_intstream(), st.sampled_from(list(PREDS)))
     zipped = st.builds(lambda a, b, f: {"t": "zip", "a": a, "b": b, "f": f}, st.one_of(ints, mapped), st.one_of(ints, filt), st.sampled_from([None, "+"]))
     nested = st.builds(lambda s, f: {"t": "map", "s": s, "f": f}, st.one_of(filt, zipped.filter(lambda z: z["f"])), st.sampled_from(list(FUNCS)))
-    return st.one_of(s_base(), s_base(), mapped, filt, zipped, nested, s_inf())
+    part = st.one_of(st.builds(lambda a, f, lim: {"t": "iterate_brk", "a": a, "f": f, "limit": lim}, st.integers(1, 3), st.sampled_from(["inc", "dbl"]), st.integers(0, 40)),
+                     st.integers(1, 6).map(lambda m: {"t": "iterate_err", "m": m}))
+    return st.one_of(s_base(), s_base(), mapped, filt, zipped, nested, s_inf(), part)
 
 
 def worker(ctx):
